@@ -1264,3 +1264,30 @@ c02_reencode!(c02_reencode_two_options, 14, |b: &mut [u8; 14]| {
     b[8] = 0xD2;
     b[12] = 0xFF;
 }, |_b: &[u8; 14]| 14usize);
+
+macro_rules! c03_tkl_reserved {
+    ($name:ident, $first:expr) => {
+        #[kani::proof]
+        #[kani::unwind(6)]
+        #[kani::stub(core::fmt::write, crate::verif_harness::stub_write)]
+        fn $name() {
+            let mut buf: [u8; 19] = kani::any();
+            buf[0] = $first; // concrete, so that the token length is a constant for CBMC
+            let r = Packet::from_bytes(&buf[..]);
+            assert!(r.is_err(), "C03: token length 9-15 is rejected");
+            kani::cover!(buf[4] == 0xFF, "any content after the header");
+        }
+    };
+}
+
+//@ props=C03 tier=quick timeout=600 mem=6 cap=2 ilist=1 name=c03_tkl_9
+//@ functions=Packet::from_bytes (token length check)
+//@ bounds=19-byte datagrams (room for a 15-byte token) with first byte 0x49 (version 1, CON, TKL 9); every other byte symbolic
+//@ what=token lengths 9..15 are rejected with an error even when enough bytes follow the header (the buffers of the c03_total_* harnesses are too short to hold such a token, so a lost range check would hide behind the truncation check there)
+c03_tkl_reserved!(c03_tkl_9, 0x49);
+
+//@ props=C03 tier=quick timeout=600 mem=6 cap=2 ilist=1 name=c03_tkl_15
+//@ functions=Packet::from_bytes (token length check)
+//@ bounds=as c03_tkl_9 with first byte 0x7F (version 1, RST, TKL 15)
+//@ what=as c03_tkl_9
+c03_tkl_reserved!(c03_tkl_15, 0x7F);
